@@ -34,17 +34,6 @@ Proof.
   cbn [tmap write_numbers]; rewrite map_length, Hl; cbn [Nat.eqb]; rewrite map_to_of; split; reflexivity.
 Qed.
 
-(* the values of hand-written types covered by a proved round trip *)
-Definition hand_ok (i : N) (v : value) : Prop := i = hid_Rectangle \/ i = hid_Matrix.
-
-Theorem hands_law E : forall i x p, hand_ok i x -> h_write hands i x = TOk p ->
-  exists x', h_read hands i (resolve E) p = TOk x' /\ h_write hands i x' = TOk p.
-Proof.
-  intros i x p [Hi|Hi] Hw; subst i; cbn [hands h_write h_read] in *; unfold hand_write, hand_read in *; cbn in Hw |- *.
-  - eapply rectangle_rt. exact Hw.
-  - eapply matrix_rt. exact Hw.
-Qed.
-
 (* non-vacuity: a Date, a Rectangle and a Matrix go through their pairs *)
 Example date_example :
   tbind (write_date (VNums [1998; 12; 23; 19; 52; 0; 0; 8; 0]%Z)) (read_date (fun _ => TErr (EBase 1)))
@@ -207,4 +196,49 @@ Proof.
   - rewrite Ey, Em, Ed, Eh, Ei, Es, Et, Eu. cbn [app].
     apply date_read_shape; try assumption; lia.
   - cbn [map]. rewrite !N2Z.id. rewrite Hr. rewrite Ho4. reflexivity.
+Qed.
+
+(** * Action (after fix C15-b): a Goto with a named destination, and any other action whose /S is a name other than
+      GoTo, reads back to a value with the same written form *)
+Definition action_ok (v : value) : Prop :=
+  match v with
+  | VSome (VStr _) => True
+  | VDict d => exists n, dget k_S d = Some (PName n) /\ beqb n n_GoTo = false
+  | _ => False
+  end.
+
+Theorem action_rt rs v p : action_ok v -> write_action v = TOk p ->
+  exists v', read_action rs p = TOk v' /\ write_action v' = TOk p.
+Proof.
+  destruct v as [| | | | | |d| | | |x| | | | | | | | |]; cbn [action_ok]; try contradiction.
+  - intros [n [Hs Hn]] Hw. cbn [write_action] in Hw. inversion Hw. subst p.
+    exists (VDict d). unfold read_action. cbn [resolve_if_ref tbind into_dictionary t_try].
+    rewrite Hs. cbn [as_name tbind]. rewrite Hn. split; reflexivity.
+  - destruct x; try contradiction. intros _ Hw. cbn [write_action] in Hw. inversion Hw. subst p.
+    exists (VSome (VStr s)). split; reflexivity.
+Qed.
+
+(* before the fix the Goto arm wrote only /D: such a dictionary is not an action for the reader *)
+Lemma action_goto_without_S_unreadable rs s :
+  read_action rs (PDict (dinsert k_D (PStr s) [])) = TErr (EBase c_NoneError).
+Proof. reflexivity. Qed.
+
+(** * NameTree: whatever is read cannot be written — the writer is `todo!()` (open finding C15-c) *)
+Lemma nametree_write_refuted : exists rs p v, read_nametree rs p = TOk v /\ write_nametree v = TPanic site_nametree_todo.
+Proof.
+  exists (fun _ => TErr (EBase 1)), (PDict [(k_Names, PArr [PStr [97]; PInt 1])]). eexists. split; [vm_compute; reflexivity|reflexivity].
+Qed.
+
+(** * the values of hand-written types covered by a proved round trip, and the law that closes the generic theorem *)
+Definition hand_ok (i : N) (v : value) : Prop :=
+  i = hid_Rectangle \/ i = hid_Matrix \/ i = hid_Date \/ (i = hid_Action /\ action_ok v).
+
+Theorem hands_law E : forall i x p, hand_ok i x -> h_write hands i x = TOk p ->
+  exists x', h_read hands i (resolve E) p = TOk x' /\ h_write hands i x' = TOk p.
+Proof.
+  intros i x p [Hi|[Hi|[Hi|[Hi Hok]]]] Hw; subst i; cbn [hands h_write h_read] in *; unfold hand_write, hand_read in *; cbn in Hw |- *.
+  - eapply rectangle_rt. exact Hw.
+  - eapply matrix_rt. exact Hw.
+  - eapply date_rt. exact Hw.
+  - eapply action_rt; eassumption.
 Qed.
